@@ -11,7 +11,8 @@ RULE = ("cases: 'hs <commitment_period> <commit_offset> <redownload_buffer_size>
         "(through the mocked clock), start heights around the 2016 retarget boundary, minimum work at k headers -1/0/+1. Peer behaviours: "
         "honest two-pass, too little work, partial messages at every point, switching to a different chain in the second pass at every "
         "height (same or different commitment bits), non-connecting first/inner headers, forbidden and permitted difficulty changes in "
-        "either pass, second pass longer than the first (commitment overrun), calls after the end. Compared per call: success, "
+        "either pass, second pass longer than the first (commitment overrun), re-serving the first pass up to its last commitment height "
+        "and then a long cheap chain past further commitment heights (the deciding work being in the harder tail), calls after the end. Compared per call: success, "
         "request_more, state, ids and prevhashes of pow_validated_headers. A case is non-trivial when it has at least 2 calls; distinct = "
         "distinct case lines.")
 ASSUMPTIONS = ["the caller passes internally continuous batches (net_processing checks this before): in PRESYNC only the first header's prevhash is "
@@ -150,9 +151,59 @@ def gen_case(rng):
     return "hs %d %d %d %d %d %d %d %d | %s" % (period, offset, buffer, secs, min_work, start_height, start_bits, start_work, txt)
 
 
+def gen_overrun_tail(rng):
+    """A peer that re-serves the first-pass chain up to its last commitment height (still below the minimum
+    work: the deciding work is in the harder tail after a retarget), then continues with a long cheap chain
+    that crosses further commitment heights, for which the first pass took no commitment, and overfills the
+    redownload buffer."""
+    t = rng.randrange(1, 4)                       # length of the hard tail of the first pass
+    period = rng.randrange(t + 1, t + 5)          # no commitment height inside the tail
+    j = rng.randrange(1, 9)                       # headers before the retarget boundary
+    boundary = 2016 * rng.choice([1, 1, 2])
+    start_height = boundary - j - 1
+    offset = (boundary - 1) % period              # the last header before the boundary is a commitment height
+    buffer = rng.choice([0, 1, 2, 3, 5])
+    start_work = rng.choice([0, 777])
+    nid = [0]
+
+    def new_id():
+        nid[0] += 1
+        return nid[0]
+    A, prev = [], 0
+    for x in range(j + t):
+        i = new_id()
+        A.append(dict(id=i, prev=prev, bits=(Q4 if x < j else Q16), cbit=rng.randrange(2)))
+        prev = i
+    min_work = start_work + sum(proof(h["bits"]) for h in A) + rng.choice([-1, 0, 0])
+    need = sum(1 for x in range(len(A)) if (start_height + 1 + x) % period == offset)
+    secs = -(-(need + rng.choice([0, 1, 40])) * period // 6)
+    calls = batches(rng, A)
+    # second pass: the same headers up to the boundary, then cheap ones (pow limit: 1/16 of the tail's work each)
+    keep = rng.choice([j, j, j, max(0, j - 1)])
+    B = [dict(h) for h in A[:keep]]
+    prev = B[-1]["id"] if B else 0
+    for x in range(keep, j):                      # (keep < j: switch already before the last commitment height)
+        i = new_id()
+        B.append(dict(id=i, prev=prev, bits=Q4, cbit=rng.randrange(2)))
+        prev = i
+    ncheap = rng.randrange(period, 16 * t + 8)
+    for x in range(ncheap):
+        i = new_id()
+        B.append(dict(id=i, prev=prev, bits=LIMIT, cbit=rng.randrange(2)))
+        prev = i
+    calls += batches(rng, B, full_last=rng.random() < 0.8)
+    txt = " ; ".join(("F" if f else "P") + (" " + ",".join(hd(h["id"], h["prev"], h["bits"], h["cbit"]) for h in c) if c else "")
+                     for f, c in calls)
+    return "hs %d %d %d %d %d %d %d %d | %s" % (period, offset, buffer, secs, min_work, start_height, Q4, start_work, txt)
+
+
 def gen(rng, tier):
     n = 2500 if tier == "quick" else 60000
     seen, out = set(), []
+    for _ in range(n // 8):                       # first: the runner looks closely only at the first few failures
+        c = gen_overrun_tail(rng)
+        if c not in seen:
+            seen.add(c); out.append(c)
     for _ in range(n):
         c = gen_case(rng)
         if c not in seen:
